@@ -329,6 +329,26 @@ def base_namespace():
     return ns
 
 
+class _Fold(ast.NodeTransformer):
+    """constant sub-expressions have their exact Python value and are then typed like a literal of that value (the documented rule for
+    constants: `5 - 3` is the literal 2, the smallest Qint holding it - not a 4-bit subtraction)"""
+    import operator as _op
+    BIN = {ast.Add: _op.add, ast.Sub: _op.sub, ast.Mult: _op.mul, ast.Mod: _op.mod, ast.Pow: _op.pow, ast.LShift: _op.lshift,
+           ast.RShift: _op.rshift, ast.BitOr: _op.or_, ast.BitXor: _op.xor, ast.BitAnd: _op.and_}
+
+    def visit_BinOp(self, n):
+        self.generic_visit(n)
+        if isinstance(n.left, ast.Constant) and isinstance(n.right, ast.Constant) and type(n.op) in self.BIN \
+                and all(isinstance(x.value, int) and not isinstance(x.value, bool) for x in (n.left, n.right)):
+            try:
+                v = self.BIN[type(n.op)](n.left.value, n.right.value)
+                if isinstance(v, int) and 0 <= v < 2 ** 16:
+                    return ast.copy_location(ast.Constant(v), n)
+            except Exception:  # noqa
+                pass
+        return n
+
+
 class _Prep(ast.NodeTransformer):
     """wrap integer literals; refuse constructs outside the documented subset"""
 
@@ -391,7 +411,7 @@ def compile_reference(src, extra_ns=None):
     tree = ast.parse(src)
     fd = tree.body[0]
     name = fd.name
-    tree = _Prep().visit(tree)
+    tree = _Prep().visit(_Fold().visit(tree))
     ast.fix_missing_locations(tree)
     ns = base_namespace()
     if extra_ns:
